@@ -832,6 +832,35 @@ class Gen:
         self.st("scen_ret_to_prep")
         return out
 
+    def scen_zombie_probe(self):
+        """Code that runs WHILE an actor is being terminated asks `is_zombie()` of that very actor: a Ret closure that
+           captured a reference to the actor sits in a call held by the actor's Prep queue; terminating the actor drops
+           the held call, the Ret answers None and its handler probes.  The state must already say Zombie there."""
+        r = self.r
+        a, h = self.fresh("na"), self.fresh("nh")
+        acts = [("actor", h, a, None)]
+        for _ in range(r.choice([1, 1, 2])):
+            hc, hr, rid = self.fresh("nh"), self.fresh("nh"), self.fresh("nr")
+            acts.append(("clone", h, hc))
+            acts.append(("newret", hr, rid, ("clos", [hc], [("iszombie", hc)])))
+            acts.append(("call", h, ("clo", self.fresh("nclo"), 0, 0, [hr], [])))
+        out = [("do", acts)]
+        if r.random() < 0.5:
+            out.append(("run", self.t, False))
+        fate = r.random()
+        if fate < 0.4:
+            out.append(("do", [("kill", h, 5)]))
+        elif fate < 0.6:
+            out.append(("do", [("callprep", h, False, ("clo", self.fresh("nclo"), 0, 0, [], [("stop",) if r.random() < 0.5 else ("fail", 7)]))]))
+        elif fate < 0.8:
+            out.append(("do", [self.drop_act(h)]))
+        else:
+            out.append(("do", [("callprep", h, True, ("clo", self.fresh("nclo"), 0, 0, [], []))]))     # control: the calls run
+        self.t += 2 * r.randrange(0, 3)
+        out.append(("run", self.t, False))
+        self.st("scen_zombie_probe")
+        return out
+
     # ---- whole programs ----
     def program(self):
         r = self.r
@@ -861,6 +890,9 @@ class Gen:
                 continue
             if self.w["own"] >= 3 and r.random() < (0.25 if self.w["own"] >= 9 else 0.08):
                 prog += self.scen_prep_owner()
+                continue
+            if self.w["term"] >= 3 and r.random() < 0.06:
+                prog += self.scen_zombie_probe()
                 continue
             prog.append(("do", self.acts("stk", 0, None)))
             for _ in range(r.choice([1, 1, 1, 2, 3])):
@@ -1372,7 +1404,7 @@ CLAIM = {
                 missing=""),
     "C02": dict(partial=False, proved="C02_fifo_lifecycle: forall p fuel t, exec DGlobal fuel p = Done t -> C02_ok t = true (per-actor FIFO of calls across Prep->Ready, lifecycle gating, discards justified by termination / teardown; global / thread-local deferrer); C02_order_gating_partial: one-item facts",
                 missing=""),
-    "C03": dict(partial=False, proved="C03_terminates_once: forall d p fuel t, exec d fuel p = Done t -> no_container_leak t -> C03_ok t = true (hypothesis decidable on the trace: no leaked closure / actor value / notifier; it is false only in the known-finding classes F5 / F7 and for an actor storing a reference to itself, where C03_ok is indeed false: C03_F5_refuted, C03_F7_refuted, C03_selfcycle_refuted); C03_terminates_once_checked (boolean hypothesis ncl_b); C03_decomposition (C03_ok from the lifecycle monitor okL and the cause monitor okK); C03_lifecycle; C03_cause (okK for every run, no hypothesis); C03_once_partial (one-step facts); C03_dropped_cause_issued: forall p fuel t, exec DGlobal fuel p = Done t -> length t < CMAX-1 -> C03_dropped_ok t = true (a notifier is invoked with Dropped only when the trace shows no visible owner: the request was actually issued; the check evaluates C03_ok && C03_dropped_ok on real traces)",
+    "C03": dict(partial=False, proved="C03_terminates_once: forall d p fuel t, exec d fuel p = Done t -> no_container_leak t -> C03_ok t = true (hypothesis decidable on the trace: no leaked closure / actor value / notifier; it is false only in the known-finding classes F5 / F7 and for an actor storing a reference to itself, where C03_ok is indeed false: C03_F5_refuted, C03_F7_refuted, C03_selfcycle_refuted); C03_terminates_once_checked (boolean hypothesis ncl_b); C03_decomposition (C03_ok from the lifecycle monitor okL and the cause monitor okK); C03_lifecycle; C03_cause (okK for every run, no hypothesis); C03_once_partial (one-step facts); C03_dropped_cause_issued: forall p fuel t, exec DGlobal fuel p = Done t -> length t < CMAX-1 -> C03_dropped_ok t = true (a notifier is invoked with Dropped only when the trace shows no visible owner: the request was actually issued); the check evaluates C03_ok && C03_dropped_ok && C03_none_ok on real and model traces, where C03_none_ok (no notifier answered None after the actor's value was dropped) is an UNPROVED extra conjunct",
                 missing=""),
     "C04": dict(partial=False, proved="C04_last_owner_dropped: forall p fuel t, exec DGlobal fuel p = Done t -> Z.of_nat (length t) < CMAX - 1 -> C04_ok t = true (global / thread-local deferrer; CMAX = 2^62-1 is the saturation point of the packed owner count). Both hypotheses are necessary: C04_inline_deferrer_refuted (with the inline deferrer a kill! queued while no Stakker exists parks an owner for ever: C04_ok false on the model trace), C04_saturation (at CMAX the generated count_inc is the identity and the count never comes down again). Parts: C04_monitor_split (C04_ok = total state function + three checks); C04_notify_check (at notify a Dropped: C04_never_dropped_while_owned - no visible owner of a - and C04_drop_takes_queue_place - every call to a pending when its last visible owner went has been started or discarded: the termination takes the drop's place in the main queue); C04_runret_check (when run returns: C04_last_owner_terminates - every actor that lost its last visible owner since the Stakker was created is notified - and C04_slab_children_terminate - so are the slab children of every notified parent); C04_slab_len (slab.len() is at least the number of children not yet notified and at most the number not notified at the last runret); C04_owner_census (invariant: count field of the packed CountAndState word = number of owner handles anywhere in the configuration = invisible owners + EOwnNew - EOwnDrop; deferred terminate(Dropped) queued exactly on 1 -> 0); Examples C04_example, C04_slab_example; C04_owner_count_partial (one-step facts)",
                 missing=""),
